@@ -264,7 +264,7 @@ Proof.
     + unfold fin_ok, final_of, complete. destruct (m_mc x) eqn:Emc.
       * apply Hmc; auto.
       * right; right. unfold req_progress in Hpr. destruct (m_kind x); try tauto; lia.
-  - destruct (m_bad x) eqn:Hbad.
+  - destruct (nth (m_idx x) (m_bad x) false) eqn:Hbad.
     + (* the call raises: next iteration *)
       apply IH; [|exact Hcl|].
       * eapply upd_good with (x := x) (x' := set_m_idx x (S (m_idx x)));
